@@ -770,6 +770,15 @@ def c01_phi_1D_genic():
                 want = fac / (x * (1 - x)) * ((1 - E(-2 * G * (1 - x))) / (1 - E(-2 * G)) if regular else E(2 * G * x))
                 out.append(prove_eq('%s.path%d.%s.phi[%d]' % (oid, k, 'regular' if regular else 'asymptote', j), p.pc + [E(-2 * G) != 1], v.items[j], want, func=fn, timeout_ms=30000))
             out.append(prove_eq('%s.path%d.phi[0]=phi[1]' % (oid, k), p.pc, v.items[0], v.items[1], func=fn))
+            # the x = 1 end carries the analytic limit, scaled like every other entry: prefactor * 2G e^{2G}/(e^{2G} - 1)  (2G beyond the overflow guard)
+            small = smt.check(p.pc, G < 300, timeout_ms=3000, use_cli=False)['status'] == 'proved'
+            large = smt.check(p.pc, G >= 300, timeout_ms=3000, use_cli=False)['status'] == 'proved'
+            if small or large:
+                lim = 2 * G * E(2 * G) / (E(2 * G) - 1) if small else 2 * G
+                out.append(prove_eq('%s.path%d.phi[-1]' % (oid, k), p.pc + [E(2 * G) != 1], v.items[n - 1], fac * lim, func=fn, timeout_ms=30000,
+                                    finding_key='C01/phi_1D_genic/boundary'))
+            else:
+                out.append(struct('%s.path%d.phi[-1]' % (oid, k), False, 'the path does not decide which form of the x = 1 limit applies', fn, undecided=True))
         out.append(struct(oid + '.paths', len(paths) >= 2, '%d paths' % len(paths), fn, undecided=len(paths) < 2))
         return out
     return go()
